@@ -167,7 +167,7 @@ def check_shape(ctx, case):
 QUICK_FIXTURES = ["test-1.numbers", "issue-66-collab.numbers", "test-bullets.numbers", "test-formats.numbers", "issue-14.numbers", "test-new-formulas.numbers",
                   "test-save-1.numbers", "issue-42.numbers", "test-issue-76.numbers", "create-formulas.numbers", "issue-77.numbers", "test-styles.numbers",
                   "test-extra-borders.numbers", "test-pivot.numbers", "issue-7.numbers", "test-issue-75.numbers", "test-custom-formats.numbers", "test-actions.numbers",
-                  "issue-69b.numbers", "test-hlinks.numbers", "issue-43.numbers", "test-package.numbers", "test-7.numbers", "date_formats.numbers", "test-empty-rows.numbers"]
+                  "issue-69b.numbers", "issue-73.numbers", "test-hlinks.numbers", "issue-43.numbers", "test-package.numbers", "test-7.numbers", "date_formats.numbers", "test-empty-rows.numbers"]
 SHAPES_QUICK = [[255, 1], [256, 8], [257, 1], [1, 256], [3, 257]]
 SHAPES_ALL = [[r, c] for r in (255, 256, 257, 512) for c in (1, 8)] + [[r, c] for r in (1, 3) for c in (256, 257, 1000)]
 
